@@ -51,6 +51,7 @@ NextOf(e) ==
     [] e.a = "Restart" -> N_Restart(e.args.r, e.args.reach)
     [] e.a = "Elect" -> N_Elect(e.args.n, e.args.reach, ToSet(e.args.lag))
     [] e.a = "StaleFetch" -> N_StaleFetch(e.args.f)
+    [] e.a = "PauseResume" -> N_PauseResume
     [] e.a = "ApplyMeta" -> N_ApplyMeta(e.args.f, e.args.reach)
     [] OTHER -> Cur
 
@@ -68,6 +69,7 @@ GuardOf(e) ==
     [] e.a = "Elect" -> e.args.n \in meta.isr /\ e.args.n # Leader
     [] e.a = "StaleFetch" -> G_StaleFetch(e.args.f)
     [] e.a = "AwaitTick" -> G_Tick(e.args.f)
+    [] e.a = "PauseResume" -> G_PauseResume
     [] e.a = "ApplyMeta" -> e.args.f \in lagging /\ up[e.args.f]
     [] OTHER -> TRUE
 
